@@ -24,6 +24,11 @@ add('C02', 'E-RUN+E-CHW+gen (+E-RACE in thorough)', 'exploration',
     'Trusted: decoding of ch-go column objects, unique ids embedded in every field that can carry one; contiguity/order of rows inside a block is not required.',
     'runtime monitoring: online block assertions + offline row-level comparison against rows known by construction, race detector', 'DESIGN §3 C02')
 
+add('C05', 'E-RUN+E-CHW+gen', 'exploration',
+    'Robustness fuzzing of the real writer in crash-isolated child processes: every ingest route × content type × mutation operator (byte level, JSON structure, protobuf with absent sub-messages, boundary ids, query parameters, lying/truncated encodings, headers, random bytes). Monitors: process death (attributed through a write-ahead log to the request in flight), unanswered request with goroutine dumps showing the request stuck in qryn frames, connection closed without response, a well-formed canary push after every hostile request (acknowledged, rows intact), rectangular shared batches, goroutine census before/after.',
+    'Trusted: fake always-succeeding insert client; the wedged verdict needs a client timeout of 15 s AND two identical goroutine dumps 2 s apart (a timeout alone is inconclusive). Inputs are sampled, not enumerated.',
+    'runtime monitoring: crash-isolated fuzzing with liveness, canary and goroutine-census monitors', 'DESIGN §3 C05')
+
 NOT_APPLICABLE = {
 }
 ALL = ['C%02d' % i for i in range(1, 21)]
